@@ -1,27 +1,51 @@
 #!/usr/bin/env python3
 """print the markdown tables of DESIGN.md section 8 from seeded/*/meta.json and notes/mutants_result.json"""
-import json, glob, os
+import json, glob, os, sys
 V = os.path.dirname(os.path.abspath(__file__))
-print('| seed | what was changed (sub-agent summary, abridged) | needs | caught by (quick check) | first violation keys |')
-print('|---|---|---|---|---|')
-for d in sorted(glob.glob(os.path.join(V, 'seeded', '*'))):
-    m = json.load(open(os.path.join(d, 'meta.json')))
-    c = m['confirmed_by_me']
-    cr = c['check_result']
-    caught = ', '.join(f"{k} (exit {v['exit']}, {v['violation_classes']} classes)" for k, v in cr.items())
-    keys = '; '.join(f'`{k}`' for v in cr.values() for k in v['first_keys'][:2])
-    extra = m.get('also_caught_by')
-    if extra:
-        caught += '; also ' + ', '.join(extra)
-    def ab(t, n):
-        t = ' '.join(str(t).split()).replace('|', '\\|')
-        return t if len(t) <= n else t[:n - 3] + '...'
-    print(f"| {os.path.basename(d)} | {ab(m.get('summary',''), 230)} | {ab(m.get('needs_to_manifest',''), 170)} | {caught} | {ab(keys, 200)} |")
-print()
-mr = os.path.join(V, 'notes', 'mutants_result.json')
-if os.path.exists(mr):
-    print('| mutant | targets | outcome |')
-    print('|---|---|---|')
+
+
+def ab(t, n):
+    t = ' '.join(str(t).split()).replace('|', '\\|')
+    return t if len(t) <= n else t[:n - 3] + '...'
+
+
+def seed_table():
+    out = ['| seed | needs, to manifest (sub-agent, abridged) | own check (quick): classes, first keys | related checks that also fire | related checks silent |', '|---|---|---|---|---|']
+    for d in sorted(glob.glob(os.path.join(V, 'seeded', '*'))):
+        m = json.load(open(os.path.join(d, 'meta.json')))
+        c = m['confirmed_by_me']
+        p = m['property']
+        cr = c['check_result'][p]
+        rq = m.get('regression_quick')
+        classes = rq['own_property_classes'] if rq else cr['violation_classes']
+        ex = rq['own_property'] if rq else cr['exit']
+        keys = '; '.join(f'`{k}`' for k in cr['first_keys'][:2])
+        out.append(f"| {os.path.basename(d)} | {ab(m.get('needs_to_manifest', ''), 200)} | exit {ex}, {classes} classes: {ab(keys, 170)} | {', '.join(m.get('also_caught_by', [])) or '-'} | {', '.join(m.get('related_checks_silent', [])) or '-'} |")
+    return '\n'.join(out)
+
+
+def history_table():
+    out = ['| seed | detection history |', '|---|---|']
+    for d in sorted(glob.glob(os.path.join(V, 'seeded', '*-3'))):
+        m = json.load(open(os.path.join(d, 'meta.json')))
+        out.append(f"| {os.path.basename(d)} | {ab(m.get('detection_history', ''), 900)} |")
+    return '\n'.join(out)
+
+
+def mutant_table():
+    mr = os.path.join(V, 'notes', 'mutants_result.json')
+    out = ['| mutant | targets | outcome |', '|---|---|---|']
     for r in json.load(open(mr)):
         det = ', '.join(f"{p}: exit {v['exit']} ({v['n_keys']} classes)" for p, v in r.get('checks', {}).items())
-        print(f"| {r['id']} | {','.join(r['targets'])} | {r['status']}{' - ' + det if det else ''} |")
+        out.append(f"| {r['id']} | {','.join(r['targets'])} | {r['status']}{' - ' + det if det else ''} |")
+    return '\n'.join(out)
+
+
+if __name__ == '__main__':
+    which = sys.argv[1] if len(sys.argv) > 1 else 'all'
+    if which in ('all', 'seeds'):
+        print(seed_table() + '\n')
+    if which in ('all', 'history'):
+        print(history_table() + '\n')
+    if which in ('all', 'mutants'):
+        print(mutant_table())
